@@ -16,6 +16,29 @@ EXTRA = {
  'C15': ' A second complete enumeration covers every slice body of length 0..6 (thorough 0..8) over "-01: A" in three bracket contexts.',
  'C19': ' Sequences interleave mid-sequence to_bytes() observations (octet-aligned by construction) and in-place overwrites of earlier unsigned fields with the writes.',
 }
+EXTRA5 = {
+ 'C01': ' Fifth session: scale-0 fields widened by 201YYY to 53..134 bits holding values a double cannot carry; operator-bearing Table D sequences as templates of their own; every eighth case decoded again with debug logging switched on.',
+ 'C02': ' Fifth session: the same wide fields through the encoder; character values handed over as byte strings; the shared encoder is first made to refuse a message half-way on every fourth case; two 203YYY definition lists without a cancellation between them; every eighth case encoded again with debug logging on.',
+ 'C03': ' Fifth session: the round trip with template compilation on one side only (compiling encoder + plain decoder and the reverse) for templates in the domain of compilation; strings that end in NUL octets or hold octet pairs that are valid UTF-8.',
+ 'C04': ' Fifth session: every decoder-side case also through the stream scanner (full and info-only), with the stop signature\'s octets inside section 2; encoder cells also fed byte-string signatures, a flat JSON rendering passed on as it is, and subset(); messages without descriptors (data section of zero bits) in both directions.',
+ 'C05': ' Fifth session: every fourth pair goes through template-compiling coders.',
+ 'C06': ' Fifth session: every third case decoded again with debug logging on (audited per-subset lists); templates whose section 3 lists no operator (operator-bearing Table D sequences, biased to those that leave something in force at the end of the subset); hand-laid-out subsets with the same descriptors and other bitmaps.',
+ 'C07': ' Fifth session: links, values and hierarchical view also through the template-compiling decoder (compile, then from the cache); 225255 while 201 / 202 is in force; subsets with the same descriptors and other bitmaps.',
+ 'C08': ' Fifth session: a decoder and an encoder that share one compiled-template manager run each other\'s compiled templates, in either order.',
+ 'C09': ' Fifth session: the hierarchical view is compared with the one expected from the reference model (which value hangs on which node); subsets with the same descriptors and other bitmaps.',
+ 'C10': ' Fifth session: hand-laid-out foreign compressed character columns (narrow increments, unused all-zero element) -- extract + encode must leave the source untouched (also on the corpus); an overriding encoder exists elsewhere in the process; the subset command with -t on messages laid out with a private tables root.',
+ 'C11': ' Fifth session: scans repeated with the decoder\'s documented options handed through; filter expressions with the embedded query inside generator expressions / lambdas; info -c over six files per invocation incl. files without a message.',
+ 'C12': ' Fifth session: undefined class 31 ids at delayed-replication factor positions; a continue-on-error scan with a filter that holds for every message; every file-reading sub-command (subset, compile, query, script, info -t, decode -a/-j, split) on a damaged message.',
+ 'C13': ' Fifth session: pool messages that name tables which are not installed (decode falls back, encode refuses -- after any history), decoded and encoded back to back; an overriding encoder created before the coders of every other history.',
+ 'C14': ' Fifth session: lists and every Table D sequence again in a forked child that registered in-stream definitions; the lookup and compile commands per table selection given through their options; table selections under the bundled and under a private tables root directory in one process, in four orders.',
+ 'C16': ' Fifth session: every other query is preceded by a rejected expression through the shared querent; every path also through a querent whose parser was built with bare_id_matches_all=False (no slice = first match).',
+ 'C17': ' Fifth session: every fifth query is preceded by a malformed expression through the shared querent.',
+ 'C18': ' Fifth session: one runner over a sibling message and the first message again (fresh names per run); the script sub-command (argument / -f / two files; level by -n, by pragma, by neither).',
+ 'C19': ' Fifth session: in-place overwrites with values that do not fit (2^n, 2^n+1, -1, -2^(n-1), -2^n) are refused and change nothing, for every width and offset.',
+ 'C20': ' Fifth session: 0..6 Table A entries; five equivalent section-3 spellings of the dictionary layout; scans with the decoder\'s options handed through (as decode -m does).',
+}
+for k, v in EXTRA5.items():
+    EXTRA[k] = EXTRA.get(k, '') + v
 checks = []
 for pid in ids:
     if pid not in CHECKS:
@@ -49,7 +72,7 @@ m = {
                  'kind_free_text': 'Hypothesis-driven generated search + exhaustive small-scope enumeration against an independent reference model (refbufr), sharded over processes; own time-boxed choice-sequence shrinker; atheris (libFuzzer) on raw strings for the two character state machines and, through a byte-backed choice sequence, on the structured generators of 16 checks'}],
     'checks': checks,
     'not_applicable': na,
-    'notes': 'See DESIGN.md (sections 13-16: as built, defects and findings, sensitivity, third session). Open known findings and the repaired defects (21 fix: commits in /repo) are listed in /verif/known_findings.txt; probes and regression inputs in /verif/corpus/; 80 independently written breaking changes (two rounds) in /verif/seeded/, all killed by the quick check of their property; planted mutants and the reverts of every repair in /verif/mutants/ (results in RESULTS.json). No source hooks are needed: every observation point is public API.',
+    'notes': 'See DESIGN.md (sections 13-18: as built, defects and findings, sensitivity, third to fifth session). Open known findings and the repaired defects (22 fix: commits in /repo) are listed in /verif/known_findings.txt; probes and regression inputs in /verif/corpus/; 240 independently written breaking changes (six rounds) in /verif/seeded/, each with the check that kills it recorded in its meta.json; planted mutants and the reverts of every repair in /verif/mutants/ (results in RESULTS.json). No source hooks are needed: every observation point is public API.',
 }
 json.dump(m, open(os.path.join(HERE, 'MANIFEST.json'), 'w'), indent=1)
 try:
